@@ -30,7 +30,22 @@ func VerifC10_InitiatorRestart() {
 	pre := st
 	isPull := st.Initiator == st.Recipient
 	other := verifOther(&st)
+	// a transport configurer registered for the opening voucher type (e.g. the per-channel store):
+	// after a process restart the in-memory option table is empty, so the restart must consult it again
+	configured, applied := 0, 0
+	zz.Assert(f.m.RegisterTransportConfigurer(st.Vouchers[0].Type, func(c datatransfer.ChannelID, v datatransfer.TypedVoucher) []datatransfer.TransportOption {
+		if c == chid {
+			configured++
+		}
+		return []datatransfer.TransportOption{func(c datatransfer.ChannelID, t datatransfer.Transport) error {
+			if c == chid {
+				applied++
+			}
+			return nil
+		}}
+	}) == nil, "register configurer")
 	err := f.m.RestartDataTransferChannel(context.Background(), chid)
+	zz.Assert(configured == 1 && applied == 1, "the restart re-runs the transport configurer and applies its options (per-channel store survives a process restart)")
 	zz.Settle()
 	post := f.g.VerifPeek(chid)
 	zz.Assert(f.g.VerifLen() == 1 && post != nil, "restart never creates or removes a channel")
@@ -81,9 +96,24 @@ func VerifC10_IncomingRestart() {
 	req.SelectorPtr = st.Selector.Node
 	req.Pull = isPull
 	pre := st
+	configured, applied := 0, 0
+	zz.Assert(f.m.RegisterTransportConfigurer(st.Vouchers[0].Type, func(c datatransfer.ChannelID, v datatransfer.TypedVoucher) []datatransfer.TransportOption {
+		if c == chid {
+			configured++
+		}
+		return []datatransfer.TransportOption{func(c datatransfer.ChannelID, t datatransfer.Transport) error {
+			if c == chid {
+				applied++
+			}
+			return nil
+		}}
+	}) == nil, "register configurer")
 	_ = f.rcv.receiveRequest(context.Background(), chid.Initiator, req)
 	zz.Settle()
 	post := f.g.VerifPeek(chid)
+	if f.val.Result.Accepted {
+		zz.Assert(configured == 1 && applied == 1, "an accepted restart re-runs the transport configurer and applies its options")
+	}
 	zz.Assert(f.g.VerifLen() == 1 && post != nil, "no channel created or removed")
 	zz.Assert(channels.VerifSameIdentity(&pre, post) && channels.VerifSameCounters(&pre, post) && channels.VerifSameLogs(&pre, post), "identity, vouchers and progress preserved")
 	zz.Assert(len(f.val.Calls) == 1 && f.val.Calls[0] == "restart", "the responder re-validates")
